@@ -568,6 +568,14 @@ def gen_history(rng, flavour, nsteps, p_remove=0.12):
                     # mostly two top-level services; sometimes node-level ones (also two services of ONE node)
                     pool = tops if (len(tops) >= 2 and rng.random() < 0.7) else allsvc
                     a, b = rng.sample(pool, 2)
+                    # often: a service that already peers gets a second peering (un-peering one must leave the other)
+                    peered = [x for x in pool if any(v.typ(p) == 'ServicePort' and any(
+                        v.typ(q) == 'ServicePort' for l in v.links_of(p) for q in v.ends(l) if q != p)
+                        for p in v.cps_of_service(x))]
+                    if peered and rng.random() < 0.5:
+                        a = rng.choice(peered)
+                        rest = [x for x in pool if x != a]
+                        b = rng.choice(rest)
                     return ['peer', v.service_path(a), v.service_path(b)] + (['K'] if rng.random() < 0.4 else [])
                 add(3, mk_peer)
             # a second live handle of a service / of a port with sub-interfaces, looked up now and kept
